@@ -106,7 +106,7 @@ func c07Calls(r *rand.Rand, st *stack, nic mon.NIC, e gen.Env, n int) []txCall {
 	any4 := func() netip.Addr { a, _ := e.IP4(r); return a }
 	any6 := func() netip.Addr { a, _ := e.IP6(r); return a }
 	for i := 0; i < n; i++ {
-		switch k := r.Intn(24); k {
+		switch k := r.Intn(25); k {
 		case 0:
 			ip := any4()
 			calls = append(calls, txCall{api: "arp.Request", args: ip.String(), call: func() error { return st.arp.Request(ip) },
@@ -528,6 +528,57 @@ func c07Calls(r *rand.Rand, st *stack, nic mon.NIC, e gen.Env, n int) []txCall {
 					}
 					if len(in[1].ICMP) < 8 || in[1].ICMP[0] != 128 || in[1].D.DstIP != netip.MustParseAddr("ff02::1") {
 						return "pingall: second frame is not an echo request to all nodes"
+					}
+					return ""
+				}})
+		case 24:
+			// ValidateDefaultRouter pings the client from this host's address and then from the router's address (from this
+			// host's MAC). The client answers everything (its default route points here: nil), only the first ping
+			// (ErrNotRedirected after two more) or nothing (ErrTimeout); the answers are parsed by a station goroutine.
+			dst, dm, mode := lanIP(), refdec.MAC{0x02, 0xd1, byte(r.Intn(256)), byte(r.Intn(256)), 0, 1}, r.Intn(3) // a real station: unicast MAC
+			if dst == nic.HostIP || dst == nic.RouterIP {
+				continue
+			}
+			calls = append(calls, txCall{api: "ValidateDefaultRouter", args: fmt.Sprintf("%v mode=%d", dst, mode), call: func() error {
+				st.rec.AfterWrite(func(f mon.TxFrame) {
+					d := refdec.Decode(f.Data)
+					if d.Err || d.OffIP4 == 0 || d.Proto != 1 || len(f.Data) < d.OffIP4+28 || f.Data[d.OffIP4+20] != 8 || d.DstIP != dst {
+						return
+					}
+					if mode == 2 || (mode == 1 && d.SrcIP != nic.HostIP) {
+						return
+					}
+					icmp := f.Data[d.OffIP4+20:]
+					var rest [4]byte
+					copy(rest[:], icmp[4:8])
+					reply := refdec.Ether(d.SrcMAC, dm, 0x0800, 0, refdec.IP4(refdec.IP4Hdr{TTL: 64, Proto: 1, Src: dst, Dst: d.SrcIP}, refdec.ICMP4(0, 0, rest, icmp[8:])))
+					go func() {
+						time.Sleep(3 * time.Millisecond)
+						s.Parse(reply)
+					}()
+				})
+				defer st.rec.AfterWrite(nil)
+				return s.ValidateDefaultRouter(packet.Addr{MAC: hw(dm), IP: dst})
+			},
+				verify: func(err error, fr []mon.TxFrame, in []mon.TxInfo) string {
+					wantN, wantErr := []int{2, 3, 1}[mode], []error{nil, packet.ErrNotRedirected, packet.ErrTimeout}[mode]
+					if err != wantErr {
+						return fmt.Sprintf("result: returned %v, the client's behaviour calls for %v", err, wantErr)
+					}
+					if len(fr) != wantN {
+						return fmt.Sprintf("count: %d frames sent, expected %d echo requests", len(fr), wantN)
+					}
+					for i, x := range in {
+						src := nic.RouterIP
+						if i == 0 {
+							src = nic.HostIP
+						}
+						if len(x.ICMP) < 8 {
+							return "protocol: not icmp"
+						}
+						if m := wantEcho(x, 8, dm, src, dst, uint16(x.ICMP[4])<<8|uint16(x.ICMP[5]), 1); m != "" {
+							return m
+						}
 					}
 					return ""
 				}})
